@@ -264,6 +264,16 @@ def rule_vectored_and_narrowing(ctx, db):
                "advance_vec_to decides from the *total* initialised length of all members (total_len) and then sets one total "
                "that is distributed by capacity: with members that already hold bytes the received bytes stay invisible or a "
                "later member shrinks" if gates_on_total else "advance_vec_to works member by member", f)
+    # sibling SetLen impls of the growable root byte containers agree: set_len sets (also lowers) the length; the
+    # grow-only policy lives in advance_to
+    sib = [f for f in db.fns.values() if f.short == "set_len" and f.impl and (f.impl.get("trait") or "").endswith("::SetLen") and
+           re.match(r"^(alloc::vec::Vec<u8>|bytes::bytes_mut::BytesMut|arrayvec::arrayvec::ArrayVec<u8, N>|smallvec::SmallVec<\[u8; N\]>)$", f.impl.get("self") or "")]
+    ctx.floor("R6", "SetLen impls of growable root byte containers", len(sib), 2)
+    for f in sib:
+        gated = any(st.get("r", {}).get("k") == "bin" and st["r"].get("x") in ("Lt", "Le", "Gt", "Ge") for bi, si, st in f.stmts()) and \
+            bool(calls(f, r"buf_len$|::len$"))
+        ctx.ob("R6", "set_len-also-shortens:" + (f.impl.get("self") or "?"), not gated,
+               "SetLen::set_len is unconditional (clear() and buffer reuse work for every root buffer kind alike)", f)
     br = "compio_driver::buffer_pool::BufferRef"
     if br in db.adts:
         n = 0
